@@ -124,3 +124,25 @@ Proof.
   destruct (spec_idom g entry) as [m|] eqn:S; [|discriminate]. injection B as <-. exists m. split; [exact A|]. exact (DomProofs.spec_idom_sound g entry m S).
 Qed.
 Print Assumptions lt_small_meets_the_definition.
+
+(* the sets pred[w] and bucket[v] iterated in the opposite order (Python's order depends on memory addresses): the same table, on
+   the same finite domain *)
+Definition agree_rev (g : graph) (entry : Z) : bool :=
+  match lt_row_ord (@rev Z) g entry, spec_row g entry with
+  | Some a, Some b => zlist_eqb a b
+  | _, _ => false
+  end.
+Definition sweep_rev (n : nat) : bool := forallb (fun g => forallb (agree_rev g) (range n)) (graphs n).
+Lemma sweep_rev3 : sweep_rev 3 = true.  Proof. vm_compute. reflexivity. Qed.
+Lemma sweep_rev4 : sweep_rev 4 = true.  Proof. vm_compute. reflexivity. Qed.
+Theorem lt_small_any_of_two_orders : forall n g entry, (3 <= n <= 4)%nat -> length g = n -> Forall (fun l => subseq l (range n) = true) g -> In entry (range n) ->
+  lt_row_ord (@rev Z) g entry = lt_row g entry /\ lt_row g entry <> None.
+Proof.
+  intros n g entry Hn L F E. assert (Hn' : (1 <= n <= 4)%nat) by lia. destruct (lt_small n g entry Hn' L F E) as (row & A & B).
+  assert (S : sweep_rev n = true) by (assert (C : n = 3%nat \/ n = 4%nat) by lia; destruct C as [C|C]; rewrite C; [exact sweep_rev3 | exact sweep_rev4]).
+  assert (G : In g (graphs n)).
+  { apply lists_of_complete; [assumption|]. eapply Forall_impl; [|exact F]. intros l Hl. apply sublists_complete; [apply range_nodup | exact Hl]. }
+  unfold sweep_rev in S. rewrite forallb_forall in S. specialize (S g G). rewrite forallb_forall in S. specialize (S entry E). unfold agree_rev in S.
+  rewrite B in S. destruct (lt_row_ord (@rev Z) g entry) as [a|]; [|discriminate]. apply zlist_eqb_eq in S. subst a. rewrite A. split; [reflexivity | discriminate].
+Qed.
+Print Assumptions lt_small_any_of_two_orders.
